@@ -97,3 +97,126 @@ def unit_xlsx_row_writer_write_row():
                 expect=["return"], n_loops=1, raises_only_props=["C16", "C10"])
         return {"contract": c, "callees": {"ref:Worksheet.write_string": m_write_string}, "assumptions": ["xlsxwriter's Worksheet.write_string(row, col, text) stores a string cell (A-XLRD side audited by the workbook round trip)"]}
     return ProofUnit("rowio.XlsxRowWriter.write_row", "XlsxRowWriter.write_row: item j of the i-th written row goes to cell (i, j) as a string cell", ["C16"], make, None)
+
+
+# ---------------------------------------------------------------- constructors, close, write_rows
+def _writer_init_setup(cls, target_kind, extra_env=None, df_extra=None):
+    def setup(ex, st):
+        enc = fresh(STR, "encoding")[0]
+        df = Ref("DataFormat"); st.heap[df.oid] = {"_format": {"FixedRowWriter": "fixed", "DelimitedRowWriter": "delimited"}[cls], "_is_valid": True, "_encoding": enc}
+        if df_extra: df_extra(ex, st, st.heap[df.oid])
+        if target_kind == "path": target = fresh(STR, "target_path")[0]; st.pc.append(z3.Length(target.z) > 0)
+        elif target_kind == "named": nm = fresh(STR, "stream_name")[0]; st.pc.append(z3.Length(nm.z) > 0); target = Ref("Stream"); st.heap[target.oid] = {"name": nm}
+        else: target = Ref("Stream"); st.heap[target.oid] = {}
+        self = Ref(cls); st.heap[self.oid] = {}
+        st.frames[-1].env.update({"self": self, "target": target, "data_format": df})
+        st.ghost.update({"this": self, "target": target, "df": df, "enc": enc, "opened": None, "open_failed": False})
+        if extra_env: extra_env(ex, st)
+    return setup
+
+
+def _m_open_w(ex, st, fn, args, kw):
+    """io.open(path, "w", encoding=..., newline=""): OSError, or a fresh stream; the call's arguments are obligations"""
+    ok = (args[0] is st.ghost["target"] and len(args) >= 2 and args[1] == "w" and kw.get("encoding") is st.ghost["enc"] and kw.get("newline") == "")
+    ex.obligations.append(Obligation("the-target-path-is-opened-for-writing-in-the-data-format's-encoding-without-newline-translation", st.pc, z3.BoolVal(bool(ok)), "post", props=["C12", "C14"]))
+    sb = st.copy(); sb.ghost["open_failed"] = True; yield sb, Raise(ex.new_builtin_exc(sb, "OSError", ["cannot open"]))
+    s = Ref("Stream"); st.heap[s.oid] = {}; st.ghost["opened"] = s; yield st, s
+
+
+def _c_base_bound(target_kind):
+    def c(ex, st):
+        g = st.ghost; o = st.heap[g["this"].oid]; loc = o.get("_location"); lo = st.heap[loc.oid] if isinstance(loc, Ref) else {}
+        if target_kind == "path": ok = o.get("_target_stream") is g["opened"] and g["opened"] is not None and o.get("_has_opened_target_stream") is True and o.get("_target_path") is g["target"]
+        elif target_kind == "named": ok = o.get("_target_stream") is g["target"] and o.get("_has_opened_target_stream") is False and o.get("_target_path") is st.heap[g["target"].oid]["name"]
+        else: ok = o.get("_target_stream") is g["target"] and o.get("_has_opened_target_stream") is False and o.get("_target_path") == "<io>"
+        same_path = lo.get("file_path") is o.get("_target_path") or (isinstance(lo.get("file_path"), str) and lo.get("file_path") == o.get("_target_path"))
+        ok = ok and o.get("_data_format") is g["df"] and isinstance(loc, Ref) and lo.get("_has_cell") is True and same_path
+        if not ok: return Sym(BOOL, z3.BoolVal(False))
+        return Sym(BOOL, z3.And(lift(lo["_line"]).z == 0, lift(lo["_cell"]).z == 0))
+    return c
+
+
+def unit_fixed_row_writer_init():
+    FNLS = sort_of(FNL); W = FNLS.accessor(0, 1)
+    def mk(target_kind, ld):
+        def extra(ex, st):
+            fnl, c = fresh(UFList(FNL), "fnl"); st.pc.extend(c); j = z3.Int("j!w")
+            st.pc.append(z3.ForAll([j], z3.Implies(z3.And(0 <= j, j < fnl.length), W(fnl.at(j)) >= 1)))       # precondition: widths >= 1 (field_names_and_lengths contract)
+            st.frames[-1].env["field_names_and_lengths"] = fnl; st.ghost["fnl"] = fnl
+        def dfx(ex, st, o): o["_line_delimiter"] = ld
+        import os as _os
+        exp_sep = _os.linesep if ld == "any" else ld
+        def c_sep(ex, st):
+            o = st.heap[st.ghost["this"].oid]
+            return Sym(BOOL, z3.And(z3.BoolVal(o.get("_line_separator", 0) == exp_sep and o.get("_field_names_and_lengths") is st.ghost["fnl"]), lift(o["_expected_row_item_count"]).z == st.ghost["fnl"].length))
+        c = Contract("rowio.FixedRowWriter.__init__", _writer_init_setup("FixedRowWriter", target_kind, extra, dfx),
+                returns=[Clause(_c_base_bound(target_kind), "bound-to-target-and-data-format-a-path-is-opened-(and-owned)-a-stream-is-used-as-is-location-at-the-first-row", props=["C14"]),
+                         Clause(c_sep, "line-separator-is-the-declared-line-delimiter-(os.linesep-for-any-none-for-none)-one-expected-item-per-field", props=["C14"])],
+                raises={"OSError": [Clause("open_failed", "only-a-failing-open-fails", props=["C10"])]},
+                loops={0: LoopSpec(invariants=[], havoc={"field_name": STR, "field_length": INT})},
+                expect=["return"] + (["OSError"] if target_kind == "path" else []), n_loops=1)
+        return {"contract": c, "label": "target=%s line_delimiter=%r" % (target_kind, ld), "callees": {"builtin:io.open": _m_open_w},
+                "assumptions": ["io.open raises only OSError or returns a stream (A-IO)", "precondition: every field width is >= 1 (ensured by interface.field_names_and_lengths, verified)"]}
+    def make(ctx): return [mk(t, ld) for t in ("path", "named", "anonymous") for ld in ("\n", "\r\n", "\r", "any", None)]
+    return ProofUnit("rowio.FixedRowWriter.__init__", "FixedRowWriter.__init__ (with AbstractRowWriter.__init__ inlined): target opened newline='' in the declared encoding, line separator per data format", ["C14", "C12", "C10"], make, None)
+
+
+def unit_delimited_row_writer_init():
+    def mk(target_kind):
+        def m_keywords(ex, st, fn, args, kw):
+            ex.obligations.append(Obligation("csv-keywords-are-derived-from-the-writer's-data-format", st.pc, z3.BoolVal(args[0] is st.ghost["df"]), "post", props=["C12"]))
+            k = {"delimiter": fresh(STR, "kw_delimiter")[0], "lineterminator": fresh(STR, "kw_lineterminator")[0]}; st.ghost["keywords"] = k; yield st, k
+        def m_csv_writer(ex, st, fn, args, kw):
+            w = Ref("CsvWriter"); st.heap[w.oid] = {}; st.ghost["csv_args"] = (args[0], dict(kw)); st.ghost["csv"] = w; yield st, w
+        def c_csv(ex, st):
+            g = st.ghost; o = st.heap[g["this"].oid]
+            ok = g.get("csv") is not None and o.get("_delimited_writer") is g["csv"] and g["csv_args"][0] is o.get("_target_stream") and set(g["csv_args"][1]) == set(g["keywords"]) and all(g["csv_args"][1][k] is v for k, v in g["keywords"].items())
+            return Sym(BOOL, z3.BoolVal(bool(ok)))
+        c = Contract("rowio.DelimitedRowWriter.__init__", _writer_init_setup("DelimitedRowWriter", target_kind),
+                returns=[Clause(_c_base_bound(target_kind), "bound-to-target-and-data-format-a-path-is-opened-(and-owned)-a-stream-is-used-as-is-location-at-the-first-row", props=["C14", "C12"]),
+                         Clause(c_csv, "the-csv-writer-writes-to-the-target-stream-with-exactly-the-keywords-of-_as_delimited_keywords(data_format)", props=["C12", "C14"])],
+                raises={"OSError": [Clause("open_failed", "only-a-failing-open-fails", props=["C10"])]},
+                expect=["return"] + (["OSError"] if target_kind == "path" else []))
+        return {"contract": c, "label": "target=%s" % target_kind, "callees": {"builtin:io.open": _m_open_w, "rowio._as_delimited_keywords": ModelContract(m_keywords), "_compat.csv_writer": ModelContract(m_csv_writer)},
+                "assumptions": ["_as_delimited_keywords is used through its verified contract (rowio._as_delimited_keywords)", "_compat.csv_writer(stream, **kw) is csv.writer(stream, **kw) (A-CSV, audited)"]}
+    def make(ctx): return [mk(t) for t in ("path", "named", "anonymous")]
+    return ProofUnit("rowio.DelimitedRowWriter.__init__", "DelimitedRowWriter.__init__: csv writer over the target stream with the keywords derived from the data format", ["C12", "C14", "C10"], make, None)
+
+
+def unit_row_writer_close():
+    def mk(owned):
+        def setup(ex, st):
+            s = Ref("Stream"); st.heap[s.oid] = {}
+            self = Ref("DelimitedRowWriter"); st.heap[self.oid] = {"_target_stream": s, "_target_path": "x", "_has_opened_target_stream": owned}
+            st.frames[-1].env.update({"self": self}); st.ghost.update({"this": self, "closed": 0, "s": s})
+        def m_close(ex, st, recv, args, kw):
+            ex.obligations.append(Obligation("closes-its-own-target-stream", st.pc, z3.BoolVal(recv is st.ghost["s"]), "protocol", props=["C14"]))
+            st.ghost["closed"] = Sym(INT, G(st, "closed") + 1); yield st, None
+        c = Contract("rowio.AbstractRowWriter.close", setup,
+                returns=[Clause("closed == %d and this._target_stream is None and this._target_path is None and this._has_opened_target_stream == False" % (1 if owned else 0),
+                                "a-stream-the-writer-opened-is-closed-exactly-once-a-caller's-stream-is-left-open-the-writer-lets-go-of-both", props=["C14", "C12"])],
+                raises={}, expect=["return"])
+        return {"contract": c, "label": "owned stream" if owned else "caller's stream", "callees": {"ref:Stream.close": m_close}, "assumptions": ["stream.close() does not raise"]}
+    def make(ctx): return [mk(True), mk(False)]
+    return ProofUnit("rowio.AbstractRowWriter.close", "AbstractRowWriter.close: closes only a stream it opened; idempotent state afterwards", ["C14", "C12"], make, None)
+
+
+def unit_row_writer_write_rows():
+    def setup(ex, st):
+        s = Ref("Stream"); st.heap[s.oid] = {}
+        self = Ref("DelimitedRowWriter"); st.heap[self.oid] = {"_target_stream": s}
+        rows, c = fresh(UFList(INT), "rows"); st.pc.extend(c)
+        st.frames[-1].env.update({"self": self, "rows_to_write": rows}); st.ghost.update({"rows": rows, "written": 0, "failed_at": -1})
+    def m_write_row(ex, st, recv, args, kw):
+        i = lift(st.frames[-1].env["_i0"]).z
+        ex.obligations.append(Obligation("write_row-receives-the-rows-in-order-each-once", st.pc, z3.And(lift(args[0]).z == st.ghost["rows"].at(i), G(st, "written") == i), "protocol", props=["C12", "C14"]))
+        sb = st.copy(); sb.ghost["failed_at"] = Sym(INT, i); yield from raise_new(ex, sb, "DataFormatError")
+        st.ghost["written"] = Sym(INT, G(st, "written") + 1); yield st, None
+    def make(ctx):
+        c = Contract("rowio.AbstractRowWriter.write_rows", setup,
+                returns=[Clause("written == len(rows)", "every-row-is-passed-to-write_row", props=["C12", "C14"])],
+                raises={"DataFormatError": [Clause("failed_at >= 0 and written == failed_at", "stops-at-the-first-failing-row-with-all-earlier-rows-written", props=["C12", "C14"])]},
+                loops={0: LoopSpec(invariants=["written == _i0", "failed_at == -1"], havoc={"row_to_write": INT}, ghost_havoc={"written": INT})},
+                expect=["return", "DataFormatError"], n_loops=1, raises_only_props=["C10"])
+        return {"contract": c, "callees": {"ref:DelimitedRowWriter.write_row": m_write_row}, "assumptions": ["write_row of the concrete writer is used through its verified contract"]}
+    return ProofUnit("rowio.AbstractRowWriter.write_rows", "AbstractRowWriter.write_rows: rows go to write_row in order, each once", ["C12", "C14", "C10"], make, None)
